@@ -136,3 +136,26 @@ claim("C45", "pipeline must-pass-through + constant struct literal agreement + r
       "step receiving the validator's own limit field; the WasmFeatures literal enables only mutable_global and sign_extension (floats, threads, "
       "simd, bulk memory, reference types, multi-value, multi-memory, memory64, tail calls, exceptions … are false) and is what ModuleInfo::validate "
       "receives; rejection variants are live (legacy ones frozen with reasons). That each step's predicate is right for every module is not decided.")
+
+claim("C10", "who-may-write owner table keyed by substate payload type + variant-arm constant agreement (lock/unlock idents) + guard dominance",
+      "Decides: locked-balance substates are written only by lock_*/unlock_* and liquid ones only by internal_take*/internal_put(+lock_fee), so no "
+      "withdraw/burn/recall path touches locked value; proof clone/teardown use the mirrored LOCK/UNLOCK ident per LocalRef variant and on_drop "
+      "reaches teardown; lock_amount takes the shortfall from liquid and unlock_amount returns the delta; divisibility is checked before "
+      "locking/taking. Max-of-locks arithmetic is not decided.")
+
+claim("C04", "owner table per balance/supply substate + balance-change <-> event pairing (must-pass-through after the mover) + guard dominance",
+      "Decides: each balance / supply substate has one audited set of writer functions; every vault function that moves value through "
+      "internal_take*/internal_put emits the paired Withdraw/Deposit/Recall event on every path to Ok with a payload originating from the moved "
+      "resource (lock/unlock are the only event-less movers); take_by_amount subtracts only behind the insufficient-balance test. The global sum "
+      "over histories is not decided.")
+
+claim("C03", "ex-nihilo who-may-construct table + mint/burn must-pass-through pairing with same-amount argument origins",
+      "Decides: liquid resource values are fabricated only by the audited functions (types' own take_*, mint/creation, locked->liquid moves, NF "
+      "vault takes, fee finalisation); fungible mint/burn and the non-fungible mint/burn paths pass bucket creation, event emission and the "
+      "supply update (when TrackTotalSupply) on every path to Ok with the same amount operand; vault-created buckets hold exactly what "
+      "internal_take* returned. The conservation equality itself is not decided.")
+
+claim("C09", "who-may-call table + dataflow (dropped content consumed) + guard dominance of emptiness/orphan checks",
+      "Decides: bucket nodes are dropped only via drop_*_bucket from put/burn/drop_empty paths, each of which consumes the dropped content; "
+      "drop_empty_bucket returns Ok only on the empty arm; the worktop is dropped only after drop_empty succeeded for its buckets; Kernel::invoke "
+      "rejects orphaned nodes after auto_drop; auto_drop drops only the two proof blueprints. 'take never yields more than put' is not decided.")
